@@ -280,6 +280,7 @@ namespace fastscapelib
 
         std::vector<size_type> m_pass_stack;
         std::vector<size_type> m_parent_basins;
+        std::vector<std::uint8_t> m_unvisited;
 
         friend class testing::basin_graph_orient_edges_Test;
     };
@@ -756,8 +757,13 @@ namespace fastscapelib
         m_reorder_stack.reserve(nbasins);
         m_reorder_stack.clear();
 
-        m_reorder_stack.push_back({ m_root,
-                                    m_root,
+        // basins not yet reached from a start basin (the root or, for basins that
+        // are not connected to it, an arbitrary basin of their connected component)
+        m_unvisited.assign(nbasins, 1);
+        size_type next_start = (m_root == init_idx) ? 0 : m_root;
+
+        m_reorder_stack.push_back({ next_start,
+                                    next_start,
                                     std::numeric_limits<data_type>::min(),
                                     std::numeric_limits<data_type>::min() });
 
@@ -765,8 +771,10 @@ namespace fastscapelib
         {
             m_pass_stack.clear();
             m_parent_basins.resize(nbasins);
-            m_parent_basins[m_root] = m_root;
+            m_parent_basins[next_start] = next_start;
         }
+
+        next_start = 0;
 
         while (m_reorder_stack.size())
         {
@@ -774,6 +782,7 @@ namespace fastscapelib
             data_type pass_elevation, parent_pass_elevation;
             std::tie(node, parent, pass_elevation, parent_pass_elevation) = m_reorder_stack.back();
             m_reorder_stack.pop_back();
+            m_unvisited[node] = 0;
 
 
             for (size_t i = m_nodes_connects_ptr[node];
@@ -814,6 +823,24 @@ namespace fastscapelib
                                                 std::max(edg.pass_elevation, pass_elevation),
                                                 pass_elevation });
                 }
+            }
+
+            // continue with the basins that are not connected to the root, if any
+            // (e.g., basins enclosed by masked nodes with no base level node)
+            while (m_reorder_stack.empty() && next_start < nbasins)
+            {
+                if (m_unvisited[next_start])
+                {
+                    m_reorder_stack.push_back({ next_start,
+                                                next_start,
+                                                std::numeric_limits<data_type>::min(),
+                                                std::numeric_limits<data_type>::min() });
+                    if (m_keep_order)
+                    {
+                        m_parent_basins[next_start] = next_start;
+                    }
+                }
+                ++next_start;
             }
         }
     }
